@@ -106,8 +106,9 @@ func stringGetOwnProperty(obj *object, name string) *property {
 	}
 	// TODO Test a string of length >= +int32 + 1?
 	if index := stringToArrayIndex(name); index >= 0 {
-		if chr := stringAt(obj.stringValue(), int(index)); chr != utf8.RuneError {
-			return &property{stringValue(string(chr)), 0o010}
+		// RuneError is also what stringAt returns for the character U+FFFD itself: test the range, not the rune
+		if str := obj.stringValue(); str != nil && int(index) < str.Length() {
+			return &property{stringValue(string(str.At(int(index)))), 0o010}
 		}
 	}
 	return nil
